@@ -25,9 +25,7 @@ pub const ALPHAS: [f64; 4] = [0.1, 1.0, 1e-3, 10.0];
 pub const TOLS: [f64; 3] = [1e-4, 1e-3, 1e-6];
 pub const SHIFTS: [f64; 3] = [0.0, 10.0, 1e4];
 pub const L1_RATIOS: [f64; 3] = [0.5, 1.0, 0.25];
-/// a fit of the sizes used here needs well under a millisecond of CPU time; one that has consumed this
-/// much without returning is looping (every such verdict is re-confirmed twice by the driver's replays)
-pub const WATCHDOG_MS: u64 = 500;
+pub const WATCHDOG_MS: u64 = cases::WATCHDOG_CPU_MS;
 
 /// The X alphabet (Σ4 mapped by the seed's affine map) and the y alphabet.
 fn x_alphabet(seed: u64) -> [f64; 4] {
@@ -292,18 +290,20 @@ impl Harness for C08 {
             lattice_jobs(&mut jobs, "lasso", 3, 4, 2, 5, "diag", "free", false);
             lattice_jobs(&mut jobs, "enet", 3, 4, 2, 5, "noshift1", "zerosum", false);
         }
-        // ---- structured families (p <= 6, n <= 60)
-        let fam_ns = |p: usize| -> Vec<usize> {
+        // ---- structured families (p <= 6, n <= 60); one job per (family, p, chunk of n values)
+        let fam_ns = |p: usize| -> Vec<Vec<usize>> {
             if t {
-                (p + 1..=60).collect()
+                (p + 1..=60).collect::<Vec<_>>().chunks(5).map(|c| c.to_vec()).collect()
             } else {
-                [p + 1, p + 2, 12, 31, 60].iter().cloned().filter(|n| *n > p).collect()
+                [p + 1, p + 2, 12, 31, 60].iter().filter(|n| **n > p).map(|n| vec![*n]).collect()
             }
         };
-        for fam in 0..families::N_FAMILIES {
-            for p in 1..=6usize {
-                jobs.push(Job::new(format!("lasso-family{}-p{}", fam, p), json!({"kind": "fam", "est": "lasso", "fam": fam, "p": p, "ns": fam_ns(p), "cfg": if t { "full" } else { "diag" }, "zero_mean": false})));
-                jobs.push(Job::new(format!("enet-family{}-p{}-zeromean", fam, p), json!({"kind": "fam", "est": "enet", "fam": fam, "p": p, "ns": fam_ns(p), "cfg": "noshift", "zero_mean": true})));
+        for p in 1..=6usize {
+            for fam in 0..families::N_FAMILIES {
+                for ns in fam_ns(p) {
+                    jobs.push(Job::new(format!("lasso-family{}-p{}-n{}", fam, p, ns[0]), json!({"kind": "fam", "est": "lasso", "fam": fam, "p": p, "ns": ns, "cfg": if t { "full" } else { "diag" }, "zero_mean": false})));
+                    jobs.push(Job::new(format!("enet-family{}-p{}-n{}-zeromean", fam, p, ns[0]), json!({"kind": "fam", "est": "enet", "fam": fam, "p": p, "ns": ns, "cfg": "noshift", "zero_mean": true})));
+                }
             }
         }
         // ---- from here on: classes in which the unchanged library can loop; the library call runs under
@@ -398,60 +398,7 @@ impl Harness for C08 {
     }
 }
 
-fn probe() {
-    use cases::FitOut;
-    let xa = x_alphabet(0);
-    let ya = y_alphabet(0);
-    let mut slow = 0;
-    for x0 in 0..4 {
-        for x1 in 0..4 {
-            if x0 == x1 {
-                continue;
-            }
-            for y0 in 0..4 {
-                for y1 in 0..4 {
-                    for &alpha in &ALPHAS {
-                        for normalize in [true, false] {
-                            for &l1r in &L1_RATIOS {
-                                for i in 0..3 {
-                                    for base in [false, true] {
-                                        let shift = if base { 0.0 } else { SHIFTS[i] };
-                                        let x: Mat = vec![vec![xa[x0]], vec![xa[x1]]];
-                                        let y = vec![ya[y0] + shift, ya[y1] + shift];
-                                        if y[0] == y[1] {
-                                            continue;
-                                        }
-                                        let cfg = Cfg { alpha, l1_ratio: Some(l1r), normalize, tol: TOLS[i], shift };
-                                        let t0 = std::time::Instant::now();
-                                        let r = cases::fit_watched(&x, &y, &cfg, 1000, &x, 20000);
-                                        let dt = t0.elapsed().as_millis();
-                                        if dt > 50 {
-                                            slow += 1;
-                                            let s = match r {
-                                                FitOut::Ok(f) => format!("Ok w={:?} b={}", f.w, f.b),
-                                                FitOut::Err(e) => format!("Err {}", e),
-                                                FitOut::Panic(p) => format!("PANIC {}", p.brief()),
-                                                FitOut::Hang(_) => "HANG".to_string(),
-                                            };
-                                            println!("{} ms: x={:?} y={:?} alpha={} l1r={} normalize={} tol={} -> {}", dt, x, y, alpha, l1r, normalize, TOLS[i], s);
-                                        }
-                                    }
-                                }
-                            }
-                        }
-                    }
-                }
-            }
-        }
-    }
-    println!("slow {}", slow);
-    std::process::exit(0);
-}
-
 fn main() {
-    if std::env::var("C08_PROBE").is_ok() {
-        probe();
-    }
     mc::main(C08)
 }
 
